@@ -7,6 +7,7 @@ import (
 	"sync"
 	"time"
 
+	"tunnox-core/internal/utils/iocopy"
 	"tunnox-core/verifharness/fw"
 )
 
@@ -153,6 +154,69 @@ func (c gconnCW) CloseWrite() error {
 	return nil
 }
 
+// Objects of the other shapes a conn can have (spec/Relay.tla, AllShapes). They are put behind the
+// REAL adapter constructor iocopy.NewReadWriteCloser, the way base.go / target_handler.go /
+// socks5_tunnel.go wrap the tunnel: "same-*" = one full-duplex object as Reader and Writer,
+// "split-*" = separate reader and writer objects.
+type rOnly struct{ c *gconn }
+
+func (x rOnly) Read(p []byte) (int, error) { return x.c.Read(p) }
+
+type wOnly struct{ c *gconn }
+
+func (x wOnly) Write(p []byte) (int, error) { return x.c.Write(p) }
+
+type rwOnly struct{ c *gconn }
+
+func (x rwOnly) Read(p []byte) (int, error)  { return x.c.Read(p) }
+func (x rwOnly) Write(p []byte) (int, error) { return x.c.Write(p) }
+
+type wCW struct{ c *gconn }
+
+func (x wCW) Write(p []byte) (int, error) { return x.c.Write(p) }
+func (x wCW) CloseWrite() error           { return gconnCW{x.c}.CloseWrite() }
+
+// wCloser: a writer object of its own whose Close ends the write half only (io.PipeWriter-like)
+type wCloser struct{ c *gconn }
+
+func (x wCloser) Write(p []byte) (int, error) { return x.c.Write(p) }
+func (x wCloser) Close() error                { return gconnCW{x.c}.CloseWrite() }
+
+func shaped(c *gconn, shape string) io.ReadWriteCloser {
+	var r io.Reader
+	var w io.Writer
+	switch shape {
+	case "", "direct-cw":
+		return gconnCW{c}
+	case "direct-closer":
+		return c
+	case "same-cw":
+		r, w = gconnCW{c}, gconnCW{c}
+	case "same-closer":
+		r, w = c, c
+	case "same-none":
+		r, w = rwOnly{c}, rwOnly{c}
+	case "split-cw":
+		r, w = rOnly{c}, wCW{c}
+	case "split-closer":
+		r, w = rOnly{c}, wCloser{c}
+	case "split-none":
+		r, w = rOnly{c}, wOnly{c}
+	default:
+		panic("unknown conn shape " + shape)
+	}
+	rwc, err := iocopy.NewReadWriteCloser(r, w, c.Close)
+	if err != nil {
+		panic(err)
+	}
+	return rwc
+}
+
+// halfCloseReaches: tryCloseWrite on a conn of that shape reaches a CloseWrite
+func halfCloseReaches(shape string) bool {
+	return shape == "" || len(shape) > 3 && shape[len(shape)-3:] == "-cw"
+}
+
 // ---- endpoint side ---------------------------------------------------------------------------
 func (c *gconn) send(n int) {
 	c.mu.Lock()
@@ -209,8 +273,8 @@ type bstep struct {
 	D   string `json:"d,omitempty"`
 	N   int    `json:"n,omitempty"`
 	End string `json:"end,omitempty"`
-	CwA bool   `json:"cwA,omitempty"`
-	CwB bool   `json:"cwB,omitempty"`
+	ShA string `json:"shA,omitempty"`
+	ShB string `json:"shB,omitempty"`
 }
 
 type bidiSpec struct {
@@ -220,13 +284,6 @@ type bidiSpec struct {
 	Steps []bstep `json:"steps"`
 }
 
-func asRWC(c *gconn, cw bool) io.ReadWriteCloser {
-	if cw {
-		return gconnCW{c}
-	}
-	return c
-}
-
 func driveBidi(env *fw.Env, sp bidiSpec) *fw.Trace {
 	if len(sp.Steps) == 0 || sp.Steps[0].A != "Init" {
 		return &fw.Trace{Status: fw.DriverError, Note: "bidi behaviour without Init"}
@@ -234,9 +291,10 @@ func driveBidi(env *fw.Env, sp bidiSpec) *fw.Trace {
 	rec := &recorder{}
 	g := newGate("A.Read", "A.Write", "A.CloseWrite", "B.Read", "B.Write", "B.CloseWrite")
 	conns := map[string]*gconn{"A": newGconn("A", rec, g, sp.Unit), "B": newGconn("B", rec, g, sp.Unit)}
-	cw := map[string]bool{"A": sp.Steps[0].CwA, "B": sp.Steps[0].CwB}
-	rec.add(fw.Event{"ev": "BStart", "conn": "fake", "via": sp.Via, "cwA": cw["A"], "cwB": cw["B"]})
-	done, cleanup := startRelay(sp.Via, "tcp", asRWC(conns["A"], cw["A"]), asRWC(conns["B"], cw["B"]))
+	shA, shB := sp.Steps[0].ShA, sp.Steps[0].ShB
+	cw := map[string]bool{"A": halfCloseReaches(shA), "B": halfCloseReaches(shB)}
+	rec.add(fw.Event{"ev": "BStart", "conn": "fake", "via": sp.Via, "shA": shA, "shB": shB})
+	done, cleanup := startRelay(sp.Via, "tcp", shaped(conns["A"], shA), shaped(conns["B"], shB))
 	abort := func(status, note string) *fw.Trace {
 		conns["A"].kill()
 		conns["B"].kill()
@@ -323,8 +381,9 @@ type sop struct {
 type scriptSpec struct {
 	Kind string `json:"kind"`
 	Via  string `json:"via"`
-	CwA  bool   `json:"cwA"`
-	CwB  bool   `json:"cwB"`
+	ShA  string `json:"shA"` // conn shapes (scripted conns); "" = direct-cw
+	ShB  string `json:"shB"`
+	Pipe bool   `json:"pipe,omitempty"` // kind tcp: the tunnel is a net.Pipe end behind the real adapter (no CloseWrite, is a Closer)
 	Ops  []sop  `json:"ops"`
 }
 
@@ -397,8 +456,8 @@ func driveFree(env *fw.Env, sp scriptSpec) *fw.Trace {
 	g := newGate()
 	g.free()
 	a, b := newGconn("A", rec, g, 1), newGconn("B", rec, g, 1)
-	rec.add(fw.Event{"ev": "BStart", "conn": "fake", "via": sp.Via, "cwA": sp.CwA, "cwB": sp.CwB})
-	done, cleanup := startRelay(sp.Via, "tcp", asRWC(a, sp.CwA), asRWC(b, sp.CwB))
+	rec.add(fw.Event{"ev": "BStart", "conn": "fake", "via": sp.Via, "shA": sp.ShA, "shB": sp.ShB})
+	done, cleanup := startRelay(sp.Via, "tcp", shaped(a, sp.ShA), shaped(b, sp.ShB))
 	ret := runScript(sp, rec, map[string]endpoint{"A": a, "B": b}, done)
 	if ret == nil {
 		rec.add(fw.Event{"ev": "Hung"})
@@ -417,8 +476,8 @@ func driveFree(env *fw.Env, sp scriptSpec) *fw.Trace {
 type tcpEnd struct {
 	name  string
 	rec   *recorder
-	peer  *net.TCPConn
-	relay *net.TCPConn
+	peer  net.Conn
+	relay io.ReadWriteCloser
 
 	mu       sync.Mutex
 	sent     int
@@ -480,9 +539,13 @@ func (t *tcpEnd) send(n int) {
 	t.mu.Unlock()
 	t.peer.SetWriteDeadline(time.Now().Add(3 * time.Second))
 	if _, err := t.peer.Write(data); err != nil {
-		t.mu.Lock()
-		t.fault = fmt.Sprintf("endpoint %s could not write its payload: %v", t.name, err)
-		t.mu.Unlock()
+		// a timeout is a stalled script (harness problem); any other error means the relay has
+		// closed / reset its side: the bytes stay "sent but not delivered" for the judge
+		if ne, ok := err.(net.Error); ok && ne.Timeout() {
+			t.mu.Lock()
+			t.fault = fmt.Sprintf("endpoint %s could not write its payload: %v", t.name, err)
+			t.mu.Unlock()
+		}
 	}
 }
 
@@ -494,13 +557,14 @@ func (t *tcpEnd) end(how string) {
 		t.rdClosed = true
 	}
 	t.mu.Unlock()
-	switch how {
-	case "halfclose":
-		t.peer.CloseWrite()
-	case "close":
-		t.peer.Close()
-	case "error":
-		t.peer.SetLinger(0)
+	tc, isTCP := t.peer.(*net.TCPConn)
+	switch {
+	case how == "halfclose" && isTCP:
+		tc.CloseWrite()
+	case how == "error" && isTCP:
+		tc.SetLinger(0)
+		tc.Close()
+	default:
 		t.peer.Close()
 	}
 }
@@ -515,6 +579,15 @@ func driveTCP(env *fw.Env, sp scriptSpec) *fw.Trace {
 	rec := &recorder{}
 	ends := map[string]*tcpEnd{}
 	for _, e := range []string{"A", "B"} {
+		if e == "B" && sp.Pipe {
+			p1, p2 := net.Pipe()
+			rwc, err := iocopy.NewReadWriteCloser(p1, p1, p1.Close) // Reader = Writer = the same conn, as the callers do
+			if err != nil {
+				panic(err)
+			}
+			ends[e] = &tcpEnd{name: e, rec: rec, peer: p2, relay: rwc, wrOpen: true}
+			continue
+		}
 		p, r, err := tcpPair()
 		if err != nil {
 			for _, x := range ends {
@@ -525,7 +598,7 @@ func driveTCP(env *fw.Env, sp scriptSpec) *fw.Trace {
 		}
 		ends[e] = &tcpEnd{name: e, rec: rec, peer: p, relay: r, wrOpen: true}
 	}
-	rec.add(fw.Event{"ev": "BStart", "conn": "tcp", "via": sp.Via, "cwA": true, "cwB": true})
+	rec.add(fw.Event{"ev": "BStart", "conn": "tcp", "via": sp.Via, "pipe": sp.Pipe})
 	for _, t := range ends {
 		go t.reader()
 	}
